@@ -85,6 +85,8 @@ class Checker:
         return cond
 
     def unsure(self, rule, f, what, node=None, detail=None):
+        if any(o.status == "inconclusive" and o.rule == rule and o.what == what and o.detail == detail for o in self.obs):
+            return
         self.obs.append(Ob(rule, self._site(f, node), what, "inconclusive", detail, True, None,
                            getattr(f, "qualname", None)))
 
